@@ -495,7 +495,7 @@ def judge_universe(ctx, case, resp):
     nt_chain = int((closed(C & off) & off).sum())
     if nt_chain:
         labels.append("universe2/has-chains")
-    for s in set(shape_of(t)[0] for t in types if R.depth(t) == 2):
+    for s in sorted(set(shape_of(t)[0] for t in types if R.depth(t) == 2)):
         labels.append("universe2/depth2-" + s)
     ctx.classes["universe2/pairs"] += n * n
     ctx.classes["universe2/conformant-nonidentical-pairs"] += related
